@@ -302,6 +302,14 @@ def strat_arith(draw, tier):
         if draw(st.booleans()) and m > 0:
             m |= 1
         c["c"] = m
+        if draw(st.integers(0, 5)) == 0:
+            # results that are exactly 0 (or 1, or m-1) modulo a *composite* odd modulus although no operand is: m = q^j (or q^j * t), base = q^i * u
+            q = draw(st.one_of(st.sampled_from([3, 5, 7, 255, 65537, (1 << 61) - 1, (1 << 64) - 59, (1 << 127) - 1]), nat(300).map(lambda v: v | 1)))
+            j = draw(st.integers(2, 4))
+            i_ = draw(st.integers(1, j))
+            c["c"] = q ** j * draw(st.sampled_from([1, 1, 3, 5]))
+            c["a"] = q ** i_ * draw(st.sampled_from([1, 1, 2, 7, -1])) + draw(st.sampled_from([0, 0, 0, 1, -1]))
+            c["b"] = draw(st.integers(1, 6))
         c["alias"] = draw(st.integers(0, 7)) == 0
         c["c_as_int"] = draw(st.booleans())
     elif group == "bytes":
@@ -339,6 +347,13 @@ def strat_arith(draw, tier):
         c["c"] = m
         c["a"] = draw(integer(2100))
         c["b"] = draw(integer(2100))
+        if draw(st.integers(0, 4)) == 0:
+            # a*b = 0 (or = m) modulo a composite odd modulus with non-zero factors
+            q = draw(st.one_of(st.sampled_from([3, 5, 7, 255, 65537, (1 << 61) - 1, (1 << 64) - 59]), nat(300).map(lambda v: v | 1)))
+            r_ = draw(st.one_of(st.sampled_from([3, 5, 9, 65537]), nat(200).map(lambda v: v | 1)))
+            c["c"] = q * r_
+            c["a"] = q * draw(st.sampled_from([1, 1, 2, 4]))
+            c["b"] = r_ * draw(st.sampled_from([1, 1, 3])) + draw(st.sampled_from([0, 0, 0, 1]))
     return c
 
 
